@@ -4,6 +4,7 @@ package main
 
 import (
 	"fmt"
+	"go/token"
 	"go/types"
 	"strings"
 
@@ -34,6 +35,9 @@ func ruleNewKeepsConfig(w *World, r *Run, rule string) {
 		}
 		for _, ev := range eventsOfKind(s, "mapupdate", "mapdelete") {
 			if ev.Recv != nil && mentions(ev.Recv, wo) {
+				if ev.Kind == "mapupdate" && hasherOnlyWriteBack(w, fn, ev.Pos) {
+					continue // the entry read under this key is written back with nothing but its hash strategy filled in: same logs, same keys, same origins
+				}
 				r.Fail(rule, fnWitnessNew+" | the configured log map is not modified", w.pos(ev.Pos), "witness.New "+ev.Kind+"s an entry of the map it was configured with (the witness map and the list the feeders, the endpoint and the distributor were given no longer describe the same logs)")
 			}
 		}
@@ -852,4 +856,99 @@ func faithfulMapCopy(s Summary, dst, src *Term) bool {
 		}
 	}
 	return ranged
+}
+
+// hasherOnlyWriteBack: the map update at pos (in fn or one of its closures) stores, under the key it was read with, a cell that was
+// copied from an entry of the same map (range or lookup) and of which only fields of a hasher interface type were written since.
+func hasherOnlyWriteBack(w *World, fn *ssa.Function, pos token.Pos) bool {
+	var fns []*ssa.Function
+	var add func(f *ssa.Function)
+	add = func(f *ssa.Function) {
+		fns = append(fns, f)
+		for _, a := range f.AnonFuncs {
+			add(a)
+		}
+	}
+	add(fn)
+	for _, f := range fns {
+		for _, b := range f.Blocks {
+			for _, in := range b.Instrs {
+				mu, ok := in.(*ssa.MapUpdate)
+				if !ok || mu.Pos() != pos {
+					continue
+				}
+				ld, ok := mu.Value.(*ssa.UnOp)
+				if !ok {
+					return false
+				}
+				cell, ok := ld.X.(*ssa.Alloc)
+				if !ok {
+					return false
+				}
+				fromSameMap := false
+				for _, ref := range *cell.Referrers() {
+					switch x := ref.(type) {
+					case *ssa.Store:
+						if x.Addr != cell {
+							continue
+						}
+						// value: extract #2 of next(range m)  or  lookup m[k] / extract #0 of m[k],ok
+						v := x.Val
+						if e, ok := v.(*ssa.Extract); ok {
+							switch t := e.Tuple.(type) {
+							case *ssa.Next:
+								if rg, ok := t.Iter.(*ssa.Range); ok && sameLoad(rg.X, mu.Map) && e.Index == 2 {
+									if k, ok := mu.Key.(*ssa.Extract); ok && k.Tuple == t && k.Index == 1 {
+										fromSameMap = true
+									}
+								}
+							case *ssa.Lookup:
+								if sameLoad(t.X, mu.Map) && sameLoad(t.Index, mu.Key) && e.Index == 0 {
+									fromSameMap = true
+								}
+							}
+						} else if lk, ok := v.(*ssa.Lookup); ok && sameLoad(lk.X, mu.Map) && sameLoad(lk.Index, mu.Key) {
+							fromSameMap = true
+						}
+						if !fromSameMap {
+							return false
+						}
+					case *ssa.FieldAddr:
+						written := false
+						for _, r2 := range *x.Referrers() {
+							if st, ok := r2.(*ssa.Store); ok && st.Addr == x {
+								written = true
+							}
+						}
+						if written {
+							ft := x.X.Type().Underlying().(*types.Pointer).Elem().Underlying().(*types.Struct).Field(x.Field).Type()
+							if _, isIface := ft.Underlying().(*types.Interface); !isIface || !strings.HasSuffix(ft.String(), "Hasher") {
+								return false
+							}
+						}
+					}
+				}
+				return fromSameMap
+			}
+		}
+	}
+	return false
+}
+
+// sameLoad: the same value, or two loads of the same field of the same base / the same cell (go/ssa does no CSE).
+func sameLoad(a, b ssa.Value) bool {
+	if a == b {
+		return true
+	}
+	ua, ok1 := a.(*ssa.UnOp)
+	ub, ok2 := b.(*ssa.UnOp)
+	if !ok1 || !ok2 {
+		return false
+	}
+	if ua.X == ub.X {
+		return true
+	}
+	fa, ok1 := ua.X.(*ssa.FieldAddr)
+	fb, ok2 := ub.X.(*ssa.FieldAddr)
+	return ok1 && ok2 && fa.Field == fb.Field && (fa.X == fb.X || sameLoad(fa.X, fb.X))
 }
